@@ -7,11 +7,10 @@ ID = "C08"
 LEVEL = "proof"
 DESIGN_REF = "DESIGN.md §9 C08, §12.C08"
 COQ_TARGETS = ["Properties/C08", "Pins/C08"]
-THEOREMS_FINAL = [("PdfV.Properties.C08", n) for n in
+THEOREMS = [("PdfV.Properties.C08", n) for n in
             ["C08_roundtrip_tokens", "C08_roundtrip", "C08_cur_point_sync", "C08_table", "C08_table_d0_d1_refuted",
-             "C08_table_Tr_refuted", "C08_no_leak", "C08_no_leak_buffer", "C08_keywords_cover_iso", "C08_reader_matches_source",
+             "C08_table_yields", "C08_table_Tr_refuted", "C08_no_leak", "C08_no_leak_buffer", "C08_keywords_cover_iso", "C08_reader_matches_source",
              "C08_writer_reader_agree", "C08_inline_abbreviations"]]
-THEOREMS = []
 ANCHORS = ["content.rs", "primitive.rs:serialize_name", "primitive.rs:PdfString", "types.rs:RenderingIntent", "object/mod.rs:ParseOptions"]
 MODES = ["ops_serialize", "ops_parse"]
 TRUSTED_BASE = ["coqc 8.16.1 kernel (vm_compute for table lemmas and witnesses; no native_compute)",
